@@ -22,7 +22,6 @@ import (
 
 const sigStaleValue = "tsi-stale-tag-value-after-series-drop"
 const sigStaleKeys = "tsi-stale-tag-keys-after-measurement-drop"
-const sigStaleSet = "tsi-dropmeasurement-stale-seriesidset"
 const sigKeep = "tsi-dropped-series-visible-while-series-file-keeps-id"
 
 type jstep struct {
@@ -402,9 +401,9 @@ func corpus() []*jcase {
 	out = append(out, &jcase{Gen: "corpus:stale-keys", Strict: true, Sig: sigStaleKeys,
 		Domain: []jseries{s("m0", "k0", "v0"), s("m0", "k1", "v1")}, PartN: 1, MaxLog: 5, Cache: 0,
 		Steps: []jstep{{T: "create", Series: []int{0}}, {T: "drop", Series: []int{0}}, {T: "create", Series: []int{1}}}})
-	// known finding 3: Index.DropMeasurement leaves the partition's series id set stale, so the
-	// measurement is not dropped when its later series are all dropped
-	out = append(out, &jcase{Gen: "corpus:stale-seriesidset", Strict: true, Sig: sigStaleSet,
+	// former finding (repaired in partition.go): Index.DropMeasurement left the partition's series id
+	// set stale, so the measurement was not dropped when its later series were all dropped
+	out = append(out, &jcase{Gen: "corpus:stale-seriesidset",
 		Domain: []jseries{s("m0", "k0", "v0"), s("m0", "k0", "v1")}, PartN: 1, MaxLog: 5, Cache: 0,
 		Steps: []jstep{{T: "create", Series: []int{0}}, {T: "dropmeas", Meas: "m0"}, {T: "create", Series: []int{1}},
 			{T: "drop", Series: []int{1}}, {T: "reopen"}}})
@@ -523,7 +522,7 @@ func genCase(w *vh.W) *jcase {
 
 func main() {
 	w := vh.New("C14", "From Verif Require Import Base.Prelude Model.C14.", "case", "check")
-	w.Rule = "one case = a history (5-12 steps) over a domain of 5-8 series drawn from 3 measurements x 2 tag keys x 3 values on a real tsi1.Index (1, 2 or 8 partitions; maximum log file size 5..80 bytes or 1 MiB so that log files roll and compact to L1, L2, ... between steps; series id cache off or on): create batch / drop series the way the engine does (DropSeries, DropMeasurementIfSeriesNotExist, series-file delete) / the same drop WITHOUT the series-file delete (a quarter of the histories; the key is later re-created with the same id) / Index.DropMeasurement / reopen, every query plus Index.SeriesIDSet()/SeriesN() observed after every step; one third of the cases add crash images (active log cut at every byte of its last entry, second index opened on the copy). Hand-picked histories first (the three known-finding witnesses judged with the full statement; create+drop inside one log file then reopen then re-create; drop-keeping-the-id then re-create with level merges up to L4; and mixed histories with 1 and 8 partitions, cache off and on). Non-trivial: some log file was compacted into an index file during the history. Distinct: distinct Gallina terms."
+	w.Rule = "one case = a history (5-12 steps) over a domain of 5-8 series drawn from 3 measurements x 2 tag keys x 3 values on a real tsi1.Index (1, 2 or 8 partitions; maximum log file size 5..80 bytes or 1 MiB so that log files roll and compact to L1, L2, ... between steps; series id cache off or on): create batch / drop series the way the engine does (DropSeries, DropMeasurementIfSeriesNotExist, series-file delete) / the same drop WITHOUT the series-file delete (a quarter of the histories; the key is later re-created with the same id) / Index.DropMeasurement / reopen, every query plus Index.SeriesIDSet()/SeriesN() observed after every step; one third of the cases add crash images (active log cut at every byte of its last entry, second index opened on the copy). Hand-picked histories first (the two known-finding witnesses judged with the full statement; create+drop inside one log file then reopen then re-create; drop-keeping-the-id then re-create with level merges up to L4; and mixed histories with 1 and 8 partitions, cache off and on). Non-trivial: some log file was compacted into an index file during the history. Distinct: distinct Gallina terms."
 	var rc jcase
 	if w.ReplayCase(&rc) {
 		run(w, &rc)
